@@ -207,3 +207,49 @@ Example C12_while_runs :
   wexec 1 [WWhile c body] st = OutOfFuel.
 Proof. exact while_runs. Qed.
 Print Assumptions C12_while_runs.
+
+(* ---- call-tree resolution of module variables (model C12/CallTree.v, proofs C12/CallTreeProofs.v) *)
+From Coq Require Import Permutation.
+From PV Require Import C12.CallTree C12.CallTreeProofs.
+
+(* any processing order of the routines gives the same lists (the r2 seed made the first-processed routine decide) *)
+Theorem C12_calltree_order_independent : forall rs rs' globals,
+  Permutation rs rs' ->
+  ct_inputs rs' globals = ct_inputs rs globals /\ ct_outputs rs' globals = ct_outputs rs globals.
+Proof. exact calltree_order_independent. Qed.
+Print Assumptions C12_calltree_order_independent.
+
+(* PARTIAL. Fragment: a table p of routines whose bodies are core statements and top-level calls without arguments to routines
+   of the table; meaning of a call = the callee inlined (to depth n); entry = any body.  "Incoming value read before being
+   written" is taken, as in the implementation, as "first access in the inlined access list is not a WRITE"; with the must-
+   define data-flow succeeding this covers every upward-exposed read (C12_calltree_exposed_reads_covered). Missing for the full
+   statement: the is_written_first gaps (partial array write, conditional write) of the inlined code. *)
+Theorem C12_calltree_covers_partial : forall n p entry globals,
+  let rs := map to_x (reached n p entry) in
+  (forall v, In v globals -> In v (inputs false (inline n p entry)) -> In v (ct_inputs rs globals)) /\
+  (forall f st st' tr c, exec f (inline n p entry) st = Ok st' tr c ->
+     forall l, In l (writes tr) -> In (fst l) globals -> In (fst l) (ct_outputs rs globals)).
+Proof. exact calltree_covers_partial. Qed.
+Print Assumptions C12_calltree_covers_partial.
+
+Theorem C12_calltree_exposed_reads_covered : forall n p entry globals f st st' tr c D',
+  exec f (inline n p entry) st = Ok st' tr c ->
+  flow_block (inputs false (inline n p entry)) (inline n p entry) [] = Some D' ->
+  forall l, In l (exposed tr) -> In (fst l) globals ->
+  In (fst l) (ct_inputs (map to_x (reached n p entry)) globals).
+Proof. exact calltree_exposed_reads_covered. Qed.
+Print Assumptions C12_calltree_exposed_reads_covered.
+
+(* entry: g2 = g1 + 1; call h1     h1: call h2; g3 = g2     h2: g1 = 5 *)
+Example C12_calltree_nonvacuous :
+  let entry := nth 0 prog3 [] in
+  let rs := map to_x (reached 2 prog3 entry) in
+  inline 2 prog3 entry = [SAssign g2 [] (EBin Add (EVar g1) (ELit 1%Z)); SAssign g1 [] (ELit 5%Z); SAssign g3 [] (EVar g2)] /\
+  length rs = 3%nat /\
+  ct_inputs rs [g1; g2; g3] = [g1; g2] /\ ct_outputs rs [g1; g2; g3] = [g1; g2; g3] /\
+  ct_inputs (rev rs) [g1; g2; g3] = [g1; g2] /\
+  ct_inputs [to_x (nth 2 prog3 [])] [g1; g2; g3] = [] /\
+  exists st' tr, exec 10 (inline 2 prog3 entry) (store_of [((g1, []), 7%Z)] []) = Ok st' tr CNormal /\
+                 val st' (g3, []) = 8%Z /\ val st' (g1, []) = 5%Z.
+Proof. exact calltree_nonvacuous. Qed.
+Print Assumptions C12_calltree_nonvacuous.
